@@ -94,9 +94,10 @@ pub fn run(only: &[String]) -> Vec<String> {
             let r = std::thread::spawn(move || std::panic::catch_unwind(|| run_seq(&s2))).join().unwrap();
             match r {
                 Err(_) => { fails.push(format!("FAIL {} C17:named.post sequence {:?} -> panic", label, seq)); }
+                // (always filed under Slot::named - the site KNOWN_FINDINGS.txt names - whichever function this process was started for)
                 // a failure of the specific kind recorded as finding F18 gets a clause of its own (so that KNOWN_FINDINGS.txt can name
                 // exactly that history class and every other failure is still reported as a violation)
-                Ok(Some(msg)) if msg.starts_with("@interned-f-name-overtaken ") => { if !fails.iter().any(|f: &String| f.contains("C17:named.interned-f-name-overtaken")) { fails.push(format!("FAIL {} C17:named.interned-f-name-overtaken sequence {:?}: {}", label, seq, &msg["@interned-f-name-overtaken ".len()..])); } continue; }
+                Ok(Some(msg)) if msg.starts_with("@interned-f-name-overtaken ") => { if !fails.iter().any(|f: &String| f.contains("C17:named.interned-f-name-overtaken")) { fails.push(format!("FAIL Slot::named C17:named.interned-f-name-overtaken sequence {:?}: {}", seq, &msg["@interned-f-name-overtaken ".len()..])); } continue; }
                 Ok(Some(msg)) => { fails.push(format!("FAIL {} C17:named.post sequence {:?}: {}", label, seq, msg)); }
                 Ok(None) => {}
             }
